@@ -244,7 +244,7 @@ def gen_dag(rnd, *, cycle=None, pull_prob=0.25, parallel_prob=0.25, offsets=True
                 meta=dict(n_time=n, cyclic=bool(cycle), n_pull=npull, n_trunks=len(trunks)))
 
 
-def gen_ring(rnd, klass=None, pull_prob=0.2):
+def gen_ring(rnd, klass=None, pull_prob=0.2, meta_cycle=False):
     """ring of 2-5 components (optionally with a chord and a tail); delay class in
     {'none','sufficient','between'} relative to sum of the largest steps on each cycle"""
     n = rnd.randint(2, 5)
@@ -306,6 +306,13 @@ def gen_ring(rnd, klass=None, pull_prob=0.2):
     all_suff = all(t >= need for t, need in map(cyc_tot, cycles))
     any_none = any(t == 0 for t, need in map(cyc_tot, cycles))
     expect = "ok" if all_suff else ("circular" if any_none else "either")
+    if meta_cycle:
+        # every ring component derives its output metadata from its ring input: the cycle is already
+        # unresolvable at the metadata stage of connect(), whatever the delays
+        for c in comps[:n]:
+            c["info_from_input"] = 0
+            c["late_in_info"] = rnd.random() < 0.6
+        expect, klass = "circular", "meta_cycle"
     order = list(range(len(comps)))
     rnd.shuffle(order)
     link_order = list(range(len(links)))
